@@ -4,7 +4,7 @@
  * table unchanged.  The reference model is an array of row structs in this
  * file.  Row values are solver variables; operation codes, indexes and
  * ragged lengths are enumerated.   KIND 1: node table, 2: individual table,
- * 3: mutation table. */
+ * 3: mutation table, 4: edge, 5: site, 6: migration, 7: population, 8: provenance table. */
 #include "common.h"
 
 #ifndef KIND
@@ -18,7 +18,7 @@
 
 typedef struct {
     int32_t a, b, c;        /* fixed-width fields (flags/pop/ind; flags; site/node/parent) */
-    double t;               /* time */
+    double t, t2, t3;       /* time / left / right / position */
     int len1, len2, len3;   /* ragged lengths */
     char r1[MAXL];          /* metadata */
     int32_t r2[MAXL];       /* parents (individuals) */
@@ -48,6 +48,10 @@ fresh_row_into(row_t *out)
     r.b = sym_i32(nm("b"));
     r.c = sym_i32(nm("c"));
     r.t = sym_f64_int(nm("t"));
+#if KIND == 4 || KIND == 6
+    r.t2 = sym_f64_int(nm("u"));
+    r.t3 = sym_f64_int(nm("v"));
+#endif
     r.len1 = sym_choice(nm("n"), 0, MAXL);
     for (j = 0; j < r.len1; j++) {
         r.r1[j] = (char) sym_i8(j ? nm("m") : nm("k"));
@@ -58,11 +62,13 @@ fresh_row_into(row_t *out)
     r.len3 = sym_choice(nm("nl"), 0, 1);
     r.r3[0] = sym_f64_int(nm("x"));
 #endif
-#if KIND == 3
-    r.len2 = sym_choice(nm("nd"), 0, MAXL);
+#if KIND == 3 || KIND == 5 || KIND == 8
+    r.len2 = sym_choice(nm("nd"), 0, MAXL); /* derived state / ancestral state / record */
     for (j = 0; j < r.len2; j++) {
         r.r4[j] = (char) sym_i8(j ? nm("e") : nm("d"));
     }
+#endif
+#if KIND == 3
     r.c = -1; /* parent: set by the dedicated operation */
 #endif
     *out = r;
@@ -227,6 +233,130 @@ check_ragged(const table_t *t)
 }
 #endif
 
+/* kinds 4-8: one metadata-like ragged column r1 and (site, provenance) a second byte column r4 */
+#if KIND >= 4
+#if KIND == 4
+typedef tsk_edge_table_t table_t;
+typedef tsk_edge_t trow_t;
+#define PFX(x) tsk_edge_table_##x
+#define ADD(t, r) tsk_edge_table_add_row(t, (r)->t2, (r)->t3, (r)->a, (r)->b, (r)->r1, (tsk_size_t)(r)->len1)
+#define UPD(t, j, r) tsk_edge_table_update_row(t, j, (r)->t2, (r)->t3, (r)->a, (r)->b, (r)->r1, (tsk_size_t)(r)->len1)
+#define FIXED_EQ(row, r) ((row).left == (r)->t2 && (row).right == (r)->t3 && (row).parent == (r)->a && (row).child == (r)->b)
+#define R1_LEN(row) (row).metadata_length
+#define R1_PTR(row) (row).metadata
+#define R1_OFF(t) (t)->metadata_offset
+#define R1_TOT(t) (t)->metadata_length
+#elif KIND == 5
+typedef tsk_site_table_t table_t;
+typedef tsk_site_t trow_t;
+#define PFX(x) tsk_site_table_##x
+#define ADD(t, r) tsk_site_table_add_row(t, (r)->t, (r)->r4, (tsk_size_t)(r)->len2, (r)->r1, (tsk_size_t)(r)->len1)
+#define UPD(t, j, r) tsk_site_table_update_row(t, j, (r)->t, (r)->r4, (tsk_size_t)(r)->len2, (r)->r1, (tsk_size_t)(r)->len1)
+#define FIXED_EQ(row, r) ((row).position == (r)->t)
+#define R1_LEN(row) (row).metadata_length
+#define R1_PTR(row) (row).metadata
+#define R1_OFF(t) (t)->metadata_offset
+#define R1_TOT(t) (t)->metadata_length
+#define R4_LEN(row) (row).ancestral_state_length
+#define R4_PTR(row) (row).ancestral_state
+#define R4_OFF(t) (t)->ancestral_state_offset
+#define R4_TOT(t) (t)->ancestral_state_length
+#elif KIND == 6
+typedef tsk_migration_table_t table_t;
+typedef tsk_migration_t trow_t;
+#define PFX(x) tsk_migration_table_##x
+#define ADD(t, r) tsk_migration_table_add_row(t, (r)->t2, (r)->t3, (r)->a, (r)->b, (r)->c, (r)->t, (r)->r1, (tsk_size_t)(r)->len1)
+#define UPD(t, j, r) tsk_migration_table_update_row(t, j, (r)->t2, (r)->t3, (r)->a, (r)->b, (r)->c, (r)->t, (r)->r1, (tsk_size_t)(r)->len1)
+#define FIXED_EQ(row, r) ((row).left == (r)->t2 && (row).right == (r)->t3 && (row).node == (r)->a && (row).source == (r)->b && (row).dest == (r)->c && (row).time == (r)->t)
+#define R1_LEN(row) (row).metadata_length
+#define R1_PTR(row) (row).metadata
+#define R1_OFF(t) (t)->metadata_offset
+#define R1_TOT(t) (t)->metadata_length
+#elif KIND == 7
+typedef tsk_population_table_t table_t;
+typedef tsk_population_t trow_t;
+#define PFX(x) tsk_population_table_##x
+#define ADD(t, r) tsk_population_table_add_row(t, (r)->r1, (tsk_size_t)(r)->len1)
+#define UPD(t, j, r) tsk_population_table_update_row(t, j, (r)->r1, (tsk_size_t)(r)->len1)
+#define FIXED_EQ(row, r) (1)
+#define R1_LEN(row) (row).metadata_length
+#define R1_PTR(row) (row).metadata
+#define R1_OFF(t) (t)->metadata_offset
+#define R1_TOT(t) (t)->metadata_length
+#else
+typedef tsk_provenance_table_t table_t;
+typedef tsk_provenance_t trow_t;
+#define PFX(x) tsk_provenance_table_##x
+#define ADD(t, r) tsk_provenance_table_add_row(t, (r)->r1, (tsk_size_t)(r)->len1, (r)->r4, (tsk_size_t)(r)->len2)
+#define UPD(t, j, r) tsk_provenance_table_update_row(t, j, (r)->r1, (tsk_size_t)(r)->len1, (r)->r4, (tsk_size_t)(r)->len2)
+#define FIXED_EQ(row, r) (1)
+#define R1_LEN(row) (row).timestamp_length
+#define R1_PTR(row) (row).timestamp
+#define R1_OFF(t) (t)->timestamp_offset
+#define R1_TOT(t) (t)->timestamp_length
+#define R4_LEN(row) (row).record_length
+#define R4_PTR(row) (row).record
+#define R4_OFF(t) (t)->record_offset
+#define R4_TOT(t) (t)->record_length
+#endif
+#define T_INIT PFX(init)
+#define T_FREE PFX(free)
+#define T_TRUNCATE PFX(truncate)
+#define T_KEEP PFX(keep_rows)
+#define T_EXTEND PFX(extend)
+#define T_CLEAR PFX(clear)
+#define T_COPY PFX(copy)
+#define T_EQUALS PFX(equals)
+#define T_INCR PFX(set_max_rows_increment)
+static tsk_id_t
+t_add(table_t *t, const row_t *r)
+{
+    return ADD(t, r);
+}
+static int
+t_update(table_t *t, tsk_id_t j, const row_t *r)
+{
+    return UPD(t, j, r);
+}
+static void
+check_row(const table_t *t, int j, const row_t *r)
+{
+    trow_t row;
+    int k, ret = PFX(get_row)(t, j, &row);
+    sym_assert(ret == 0 && row.id == j, "get_row succeeds for an existing row");
+    sym_assert(FIXED_EQ(row, r), "fixed-width fields equal the model row");
+    sym_assert(R1_LEN(row) == (tsk_size_t) r->len1, "ragged lengths equal the model row");
+    for (k = 0; k < r->len1; k++) {
+        sym_assert(R1_PTR(row)[k] == r->r1[k], "metadata bytes equal the model row");
+    }
+#ifdef R4_LEN
+    sym_assert(R4_LEN(row) == (tsk_size_t) r->len2, "second ragged length equals the model row");
+    for (k = 0; k < r->len2; k++) {
+        sym_assert(R4_PTR(row)[k] == r->r4[k], "second ragged column bytes equal the model row");
+    }
+#endif
+}
+static void
+check_ragged(const table_t *t)
+{
+    tsk_size_t j, a = 0, b = 0;
+    sym_assert(R1_OFF(t)[0] == 0, "offsets start at 0");
+    for (j = 0; j < t->num_rows; j++) {
+        sym_assert(R1_OFF(t)[j] <= R1_OFF(t)[j + 1], "offsets are monotone");
+        a += (tsk_size_t) model[j].len1;
+        b += (tsk_size_t) model[j].len2;
+    }
+    sym_assert(R1_OFF(t)[t->num_rows] == a && R1_TOT(t) == a, "total ragged length");
+#ifdef R4_LEN
+    for (j = 0; j < t->num_rows; j++) {
+        sym_assert(R4_OFF(t)[j] <= R4_OFF(t)[j + 1], "offsets are monotone");
+    }
+    sym_assert(R4_OFF(t)[t->num_rows] == b && R4_TOT(t) == b, "total ragged length (second column)");
+#endif
+    (void) b;
+}
+#endif
+
 static void
 check_all(const table_t *t)
 {
@@ -275,7 +405,7 @@ main_c13(void)
     }
     check_all(&t);
     for (k = 0; k < KOPS; k++) {
-        op = sym_choice(sym_nm(name, "op", k), 0, KIND == 1 ? 8 : 7);
+        op = sym_choice(sym_nm(name, "op", k), 0, KIND == 1 ? 8 : KIND >= 4 ? 6 : 7);
 #ifdef FIRST_OP
         if (k == 0 && op != FIRST_OP) {
             sym_assume(0);
